@@ -1,6 +1,5 @@
 from ..gen import encodings, hexs
-from ..readergen import (ENCODINGS, SMALL, chunk_fixed, chunk_random, gen_text, parse_tokens, short_first_chunk,
-                         small_bundled, with_intr)
+from ..readergen import ENCODINGS, SMALL, chunk_fixed, chunk_random, gen_text, small_bundled, with_intr
 from ..runner import Case, Property
 
 
@@ -10,30 +9,26 @@ class C08(Property):
     namespace = "Rosu.C08"
     design_ref = "5.8"
     level_text = (
-        "Lean 4 theorems over the model of src/reader/decoder.rs + decode.rs, for every DecodeBeatmap implementation and every delivery "
-        "schedule (unbounded): the reader's result is a function of the bytes delivered before the first fatal error and of that error "
-        "(Lemmas/ReaderSpec.readAll_eq_spec), hence Interrupted results anywhere are transparent (interrupted_transparent, for read_bom, "
-        "read_until, read_exact and the whole decode), splitting or merging chunks anywhere changes no line (readAll_split, readAll_chunks, "
-        "readAll_bytes), and the outcome of decode is a function of the bytes alone whenever the first non-empty chunk has at least 3 bytes "
-        "(decode_schedule_irrelevant_partial; with faults: decode_prefix_determined_partial); from_bytes/from_str is the one-chunk schedule and a "
-        "BufReader of capacity >= 3 agrees with it (entry_points_agree). The unrestricted statement is kept as "
-        "decode_schedule_irrelevant_statement and its NEGATION is proved on a concrete witness (finding F4: read_bom consumes and loses a first "
-        "chunk of 1 or 2 bytes). Model tied to the code on every run: a schedule-replaying BufRead, BufReader::with_capacity(1..16), from_str and "
-        "from_path drive the real decoder with a recording DecodeBeatmap type and are compared with the model output; the property itself "
-        "(equality with from_bytes) is evaluated on the implementation on the same cases.")
+        "Lean 4 theorems over the model of src/reader/decoder.rs + decode.rs (as repaired: read_bom collects the first three bytes over any "
+        "chunking, read_line is a loop that ends a line only at a U+000A code unit), for every DecodeBeatmap implementation and every delivery "
+        "schedule (unbounded): the result of decode is a function of the bytes delivered before the first fatal error and of that error "
+        "(Lemmas/ReaderSpec.decodeSched_spec, no condition on chunk sizes), hence Interrupted results anywhere are transparent "
+        "(interrupted_transparent, for read_bom, read_until, next_byte and the whole decode), splitting or merging chunks anywhere changes nothing "
+        "(readAll_split, readAll_chunks, readAll_bytes, bom_any_chunking), and for fault-free schedules the outcome is a function of the bytes "
+        "alone at FULL strength (decode_schedule_irrelevant; with faults: decode_prefix_determined; = from_bytes: decode_schedule_eq_from_bytes); "
+        "from_bytes/from_str is the one-chunk schedule and a BufReader of ANY capacity >= 1 agrees with it (entry_points_agree). The schedules "
+        "that separated deliveries before the repair (first chunk of 1-2 bytes, BufReader capacity 2: former finding F4, fixed in 5a3641c) are "
+        "kept as examples that now agree. Model tied to the code on every run: a schedule-replaying BufRead, BufReader::with_capacity(1..16), "
+        "from_str and from_path drive the real decoder with a recording DecodeBeatmap type and are compared with the model output; the "
+        "property itself (equality with from_bytes) is evaluated on the implementation on the same cases.")
     technique = "Lean 4 proof (reader characterised by bytes-before-first-fault; induction over schedules) + differential correspondence over delivery schedules"
     required_theorems = [
-        "interrupted_transparent", "readBom_interrupted", "readUntil_interrupted", "readByte_interrupted", "readAll_interrupted",
-        "insert_interrupted", "read_until_chunks", "readAll_split", "readAll_chunks", "readAll_bytes", "bom_any_chunking_partial",
-        "decode_prefix_determined_partial", "decode_schedule_irrelevant_partial", "decode_schedule_irrelevant_false",
-        "from_bytes_one_chunk", "entry_points_agree", "small_capacity_loses_bytes",
+        "interrupted_transparent", "readBom_interrupted", "readUntil_interrupted", "nextByte_interrupted", "readAll_interrupted",
+        "insert_interrupted", "read_until_chunks", "readAll_split", "readAll_chunks", "readAll_bytes", "bom_any_chunking",
+        "decode_prefix_determined", "decode_schedule_irrelevant", "decode_schedule_eq_from_bytes",
+        "from_bytes_one_chunk", "entry_points_agree",
     ]
-    partial_theorems = {
-        "decode_schedule_irrelevant_partial": "needs bomOk (first non-empty chunk >= 3 bytes, or no bytes): the unrestricted statement "
-                                              "decode_schedule_irrelevant_statement is FALSE of the code (decode_schedule_irrelevant_false, finding F4)",
-        "decode_prefix_determined_partial": "same hypothesis, schedules with fatal errors included",
-        "bom_any_chunking_partial": "same hypothesis, for read_bom alone",
-    }
+    partial_theorems = {}
     trusted_base = [
         "Lean 4.33.0 kernel",
         "axioms: at most propext, Classical.choice, Quot.sound (audited per theorem with #print axioms)",
@@ -115,6 +110,20 @@ class C08(Property):
         for n in (8190, 8191, 8192, 8193, 16384, 16385):
             body = ("[General]\n" + "A: b\n" * (n // 5 + 1)).encode()[:n]
             cases.append(Case("frompath " + hexs(body), tags=("from_path", "around-8192")))
+        # pins of the repaired read_bom (former F4): short first chunks with and without BOM, BOM split across chunks,
+        # a collected prefix that already contains a line feed
+        body = b"[General]\nA: b\n[Metadata]\nTitle: t"
+        le = b"\xff\xfe" + "[General]\nA: b\n".encode("utf-16-le")
+        be = b"\xfe\xff" + "[General]\nA: b\n".encode("utf-16-be")
+        for line in ["c5b c47656e6572616c5d0a41", "c5b47 c656e6572616c5d0a41", "cef cbbbf " + "c" + body.hex(), "cefbb cbf c5b c" + body[1:].hex(),
+                     "cef cbb cbf c" + body.hex(), "cff cfe c" + le[2:].hex(), "cff cfe5b c00 c" + le[4:].hex(), "cfe cff c" + be[2:].hex(),
+                     "c0a c5b c" + body[1:].hex(), "c41 c0a c" + body.hex(), "c0a0a c0a c" + body.hex(), "cef cbb c41 c0a c" + body.hex(),
+                     "cff c41 c0a c" + body.hex(), "i cef i cbb i cbf i c" + body.hex(), "cef c- cbbbf c" + body.hex(), "cef cbb", "cff", "cff cfe",
+                     "cfe cff c00", "c5b c47"]:
+            cases.append(Case("framesched " + line, tags=("pin-read_bom",)))
+        for cap in (1, 2):
+            for d in (body, b"\xef\xbb\xbf" + body, le, be):
+                cases.append(Case(f"bufreader {cap} {hexs(d)}", tags=("pin-read_bom", "bufreader-cap<3")))
         # tiny streams: everything up to the BOM lengths
         for data in (b"", b"\n", b"a", b"ab", b"abc", b"\xef\xbb\xbf", b"\xff\xfe", b"\xfe\xff", b"\xef\xbb", b"\xff", b"\xff\xfe\n",
                      b"\xff\xfe\n\x00", b"\xfe\xff\x00\n", b"\xef\xbb\xbf[General]\nA"):
@@ -126,16 +135,7 @@ class C08(Property):
         return impl_out.startswith("ok") and " n=0" not in impl_out
 
     def known(self, case, out, findings):
-        ids = {f["id"] for f in findings}
-        if "F4" not in ids or "explained=short-first-chunk" not in out:
-            return None
-        toks = case.line.split()
-        if toks[0] == "framesched":
-            return "F4" if short_first_chunk(parse_tokens(toks[1:])) else None
-        if toks[0] == "bufreader":
-            cap = int(toks[1])
-            n = 0 if toks[2] == "-" else len(toks[2]) // 2
-            return "F4" if cap < 3 and n > cap else None
+        # F4 is fixed (5a3641c): a fixed entry suppresses nothing — if the failure returns it is a violation.
         return None
 
 
